@@ -143,3 +143,20 @@ Proof. exact translated_write_colored_is_model. Qed.
 Theorem c17_translated_write_colored_is_spec : forall w fg bg data,
   g_write_colored w fg bg data = sa_write_colored (wa_idx fg) (wa_idx bg) data w.
 Proof. exact translated_write_colored_is_spec. Qed.
+
+(* the per-type `impl WinconStream for <T>` of crates/anstyle-wincon/src/stream.rs (non-Windows configuration) are
+   TRANSLATED too: each of the nine concrete impls (dyn Write, + Send, + Send + Sync, File, Vec<u8>, StdoutLock,
+   StderrLock, Stdout and Stderr -- the last two through `self.lock()` and the translated impl of the lock type) hands
+   `self` and the arguments, in order, to the translated `ansi::write_colored` once and answers what it answers *)
+Theorem c17_translated_impls_are_write_colored : forall f, In f g_wc_impls ->
+  forall w fg bg data, f w fg bg data = wa_write_colored fg bg data w.
+Proof. exact translated_impls_are_write_colored. Qed.
+
+Theorem c17_translated_impls_are_spec : forall f, In f g_wc_impls ->
+  forall w fg bg data, f w fg bg data = sa_write_colored (wa_idx fg) (wa_idx bg) data w.
+Proof. exact translated_impls_are_spec. Qed.
+
+(* the two generic impls (`&mut T`, `Box<T>`) forward to the pointee's impl, whatever it is *)
+Theorem c17_translated_generic_impls_forward : forall twc w fg bg data,
+  g_wc_refmut twc w fg bg data = twc w fg bg data /\ g_wc_box twc w fg bg data = twc w fg bg data.
+Proof. exact translated_generic_impls_forward. Qed.
